@@ -33,6 +33,79 @@ type vcBehaviour struct {
 	Free      bool     `json:"free"`
 	Census    bool     `json:"census"` // sequential GracefulClose of both peers with a goroutine census
 	Worker    string   `json:"worker"` // "" | "ops" | "dcmsg": a goroutine of the connection kept busy by the application
+	// Close called synchronously inside a callback of the connection, after it connected:
+	// "ice" (OnICEConnectionStateChange), "conn" (OnConnectionStateChange), "dc" (OnMessage of a data channel)
+	InCallback string `json:"incallback"`
+}
+
+// vcCloseInCallback: the documented way to close from inside a handler is Close (not GracefulClose). The
+// call has to return there, too, and the connection ends closed.
+func vcCloseInCallback(t *testing.T, tr *vkTrace, bh vcBehaviour) {
+	t.Helper()
+	tr.Reset(bh.ID)
+	a, b, err := newPair()
+	if err != nil {
+		t.Fatal(err)
+	}
+	defer func() { _ = b.Close() }()
+	connected := make(chan struct{})
+	var once, closeOnce sync.Once
+	returned := make(chan struct{})
+	closeHere := func() {
+		closeOnce.Do(func() {
+			<-connected // the handler sits in its callback until the connection is up, then closes from there
+			_ = a.Close()
+			close(returned)
+		})
+	}
+	a.OnConnectionStateChange(func(s PeerConnectionState) {
+		if s == PeerConnectionStateConnected {
+			once.Do(func() { close(connected) })
+			if bh.InCallback == "conn" {
+				closeHere()
+			}
+		}
+	})
+	if bh.InCallback == "ice" {
+		a.OnICEConnectionStateChange(func(s ICEConnectionState) {
+			if s == ICEConnectionStateConnected {
+				closeHere()
+			}
+		})
+	}
+	dc, err := a.CreateDataChannel("cb", nil)
+	if err != nil {
+		t.Fatal(err)
+	}
+	if bh.InCallback == "dc" {
+		dc.OnMessage(func(DataChannelMessage) { closeHere() })
+		b.OnDataChannel(func(d *DataChannel) {
+			d.OnOpen(func() { _ = d.SendText("close now") })
+		})
+	}
+	if err = signalPair(a, b); err != nil {
+		t.Fatal(err)
+	}
+	hung := []string{}
+	select {
+	case <-returned:
+	case <-time.After(20 * time.Second):
+		hung = append(hung, "close-in-"+bh.InCallback)
+	}
+	state := a.ConnectionState().String()
+	mut := []string{}
+	if len(hung) == 0 {
+		_, e := a.CreateOffer(nil)
+		mut = append(mut, vcInvalidState(e))
+	}
+	tr.Emit(vkM{
+		"ev": "end", "t": bh.ID, "to": state, "ordered": false, "sigState": a.SignalingState().String(),
+		"hung": hung, "mutators": mut, "census": false, "leak": 0, "driven": true,
+		"sig": fmt.Sprintf("end(close-in-callback=%s,conn=%s,hung=%d)", bh.InCallback, state, len(hung)),
+	})
+	if len(hung) > 0 {
+		go func() { _ = a.Close() }() // do not keep the stuck connection's goroutines from being looked at
+	}
 }
 
 func TestVerifPcClose(t *testing.T) {
@@ -64,6 +137,11 @@ func vcInvalidState(err error) string {
 
 func vcRun(t *testing.T, tr *vkTrace, bh vcBehaviour) bool { //nolint:cyclop
 	t.Helper()
+	if bh.InCallback != "" {
+		verifYieldHook, verifEventHook = nil, nil
+		vcCloseInCallback(t, tr, bh)
+		return true
+	}
 	tr.Reset(bh.ID)
 	ordered := !bh.Free
 	settle := func() {
@@ -88,6 +166,9 @@ func vcRun(t *testing.T, tr *vkTrace, bh vcBehaviour) bool { //nolint:cyclop
 		if offer, err := a.CreateOffer(nil); err == nil {
 			_ = a.SetLocalDescription(offer)
 		}
+	}
+	if bh.ID%2 == 1 { // a receive-only transceiver that a later AddTrack of that kind would reuse
+		_, _ = a.AddTransceiverFromKind(RTPCodecTypeVideo, RTPTransceiverInit{Direction: RTPTransceiverDirectionRecvonly})
 	}
 	isGraceful := map[string]bool{}
 	for _, g := range bh.Graceful {
@@ -273,7 +354,14 @@ func vcRun(t *testing.T, tr *vkTrace, bh vcBehaviour) bool { //nolint:cyclop
 	_, e6 := a.AddTransceiverFromKind(RTPCodecTypeVideo)
 	_, e7 := a.CreateDataChannel("late", nil)
 	e8 := a.SetConfiguration(Configuration{})
-	mut := []string{vcInvalidState(e1), vcInvalidState(e2), vcInvalidState(e3), vcInvalidState(e4), vcInvalidState(e5), vcInvalidState(e6), vcInvalidState(e7), vcInvalidState(e8)}
+	// every way of adding a transceiver or a track, also the ones that do not build a sender
+	_, e9 := a.AddTransceiverFromKind(RTPCodecTypeVideo, RTPTransceiverInit{Direction: RTPTransceiverDirectionRecvonly})
+	_, e10 := a.AddTransceiverFromKind(RTPCodecTypeAudio, RTPTransceiverInit{Direction: RTPTransceiverDirectionSendonly})
+	vtrk, _ := NewTrackLocalStaticSample(RTPCodecCapability{MimeType: MimeTypeVP8}, "v", "b")
+	_, e11 := a.AddTransceiverFromTrack(vtrk, RTPTransceiverInit{Direction: RTPTransceiverDirectionSendonly})
+	_, e12 := a.AddTrack(vtrk) // may find the receive-only video transceiver made before the close to reuse
+	mut := []string{vcInvalidState(e1), vcInvalidState(e2), vcInvalidState(e3), vcInvalidState(e4), vcInvalidState(e5), vcInvalidState(e6), vcInvalidState(e7), vcInvalidState(e8),
+		vcInvalidState(e9), vcInvalidState(e10), vcInvalidState(e11), vcInvalidState(e12)}
 	leak := 0
 	if bh.Census {
 		for i := 0; i < 400; i++ {
